@@ -102,6 +102,12 @@ pub fn decode_weight(wmode: u8, r: u8) -> f64 {
         7 => 100.1 + ((r % 32) as f64) * 101.2,
         // weights symmetric around 1: sums coincide with counts, means with 1
         8 => [0.5, 1.5, 0.25, 1.75][(r % 4) as usize],
+        // near-ties at the scale of the tolerance constants used inside the library (1e-10 for
+        // Louvain's gain comparison, 1e-7 for its default threshold): 1 + k * 0.4 * tol, so that
+        // values one or two steps apart are "equal within the tolerance" while values further
+        // apart are not (Louvain's undirected gain doubles the weight: one step there is 0.8 tol)
+        // (the shape edges, r = 3, 6, 9, get k = 1, 2, 3)
+        10 => 1.0 + (((r / 3) % 8) as f64) * 0.4 * if (r / 24) % 2 == 1 { 1e-7 } else { 1e-10 },
         // signed weights (trust / distrust networks): sums can cancel exactly
         _ => [1.0, -1.0, 0.5, -0.5, 2.0, -2.0, 1.5, 1.0][(r % 8) as usize],
     }
@@ -193,12 +199,37 @@ pub fn shape_edges(shape: u8, n: usize) -> Vec<(usize, usize)> {
                 e.push((i, (i + 2) % n));
             }
         }
+        11 => {
+            // tight clusters (triangles) with satellites: every fifth node is a satellite tied by
+            // one edge each to the first node of three different triangles, i.e. it has several
+            // equally (or, with near-tie weights, almost equally) attractive communities to join,
+            // and whichever it joins stays a community of its own
+            let sats = n / 5;
+            let t = (n - sats) / 3;
+            for j in 0..t {
+                let i = 3 * j;
+                e.push((i, i + 1));
+                e.push((i + 1, i + 2));
+                e.push((i + 2, i));
+            }
+            if t >= 3 {
+                for q in 0..sats {
+                    let u = 3 * t + q;
+                    if u >= n {
+                        break;
+                    }
+                    for d in 0..3 {
+                        e.push((u, 3 * ((q + d) % t)));
+                    }
+                }
+            }
+        }
         _ => {}
     }
     e
 }
 
-pub const N_SHAPES: u8 = 11;
+pub const N_SHAPES: u8 = 12;
 
 fn permutation(seed: u32, n: usize) -> Vec<usize> {
     let mut v: Vec<usize> = (0..n).collect();
